@@ -396,8 +396,37 @@ def _rat_data(a):
     return XArray(a.shape, [Rat.of(x) if isinstance(x, Poly) else x for x in a.data])
 
 
+def _broadcast_1d_table(r, M, anchor):
+    """value table of the 1-D forms of FeArray.broadcast: (Ne,) is one value per element, (nPg,) one value per integration
+    point; the heterogeneous parameters of the models are documented as (Ne,) or (Ne, nPg), so on the coincidence
+    Ne == nPg a 1-D array is per element (the same precedence as the tensor_ndim branch, which knows (), (Ne,), (Ne, nPg))"""
+    for (ne, npg, n, which) in ((3, 2, 3, "e"), (3, 2, 2, "p"), (3, 3, 3, "e")):
+        r.instance(fn=anchor.qualname)
+        arr = _mk("z", (n,), fe=False)
+        try:
+            got = M.static("broadcast", arr, ne, npg)
+        except XRaise as e:
+            r.fail(f"{LA}.FeArray", f"bc:1d:{ne}x{npg}:{n}", anchor.file, anchor.lineno, "FeArray.broadcast", f"1-D coefficient of length {n} with (Ne, nPg) = ({ne}, {npg}): raises {e}")
+            continue
+        okv = isinstance(got, XArray) and got.shape == (ne, npg) and all(got[e, p] == arr[e if which == "e" else p] for e in range(ne) for p in range(npg))
+        if okv:
+            r.ok(f"broadcast 1-D length {n}, (Ne, nPg) = ({ne}, {npg}): entry (e, p) is value[{which}]")
+        else:
+            r.fail(f"{LA}.FeArray", f"bc:1d:{ne}x{npg}:{n}", anchor.file, anchor.lineno, "FeArray.broadcast", f"1-D coefficient of length {n} with (Ne, nPg) = ({ne}, {npg}): entry (e, p) is not value[{'e' if which == 'e' else 'p'}]" + (": on the coincidence Ne == nPg a per-element coefficient (the documented 1-D form of rho, c, k, E ...) is spread over the integration points of every element (mass and capacity no longer carry sum rho_e V_e)" if ne == npg else ""))
+
+
+def coefficient_table_rule(ctx, rid):
+    """shared with C02 ('entries sum to density x measure'): the 1-D coefficient table of FeArray.broadcast"""
+    from ..femodel import Model
+
+    r = ctx.rule(rid, "FeArray.broadcast of a 1-D coefficient: (Ne,) -> one value per element, (nPg,) -> one per integration point, per element on the coincidence Ne == nPg", min_instances=3)
+    M = Model(ctx.repo)
+    _broadcast_1d_table(r, M, M.method("broadcast"))
+
+
 def protocol_rule(ctx):
     from ..femodel import Model, FeV, plain
+    from ..xeval import _NpAttr
     from ..xarray import einsum as xe, matmul as x_matmul
 
     repo = ctx.repo
@@ -474,6 +503,21 @@ def protocol_rule(ctx):
                 for sym, f in OPS.items():
                     run(f"field{A.shape} {sym} constant{getattr(C, 'shape', ())}", lambda A=A, C=C, f=f: f(A, C), pointwise(f, A, True, C, False), True, f"ew:{sym}:fe{ra}{A.shape[:2]}:c{rc}")
                     run(f"constant{getattr(C, 'shape', ())} {sym} field{A.shape}", lambda A=A, C=C, f=f: f(C, A), pointwise(f, C, False, A, True), True, f"ew:{sym}:c{rc}:fe{ra}{A.shape[:2]}")
+
+    # constants written as python lists / nested lists (a plain sequence is a constant tensor of ITS rank, as the array of it)
+    for ne, npg in ((2, 2), (3, 2)):
+        d = 2
+        tens = {0: (), 1: (d,), 2: (d, d)}
+        for ra in (0, 1, 2):
+            A = _mk("a", (ne, npg) + tens[ra])
+            for rc in (1, 2):
+                C = _mk("c", tens[rc], fe=False)
+                L = C.tolist()
+                for sym in ("*", "+"):
+                    f = OPS[sym]
+                    run(f"field{A.shape} {sym} list constant of shape {C.shape}", lambda A=A, L=L, f=f: f(A, L), pointwise(f, A, True, C, False), True, f"ew:{sym}:fe{ra}{A.shape[:2]}:list{rc}")
+                    if not (sym == "+" and ra == 0 and False):
+                        run(f"np.{'multiply' if sym == '*' else 'add'}(list constant of shape {C.shape}, field{A.shape})", lambda A=A, L=L, sym=sym: M.ufunc_call("multiply" if sym == "*" else "add", [L, A]), pointwise(f, C, False, A, True), True, f"ew:{sym}:list{rc}:fe{ra}{A.shape[:2]}")
 
     # ---- matmul, dot, ddot, transpose
     def contract(A, afe, B, bfe, k):
@@ -580,7 +624,6 @@ def protocol_rule(ctx):
         run(f"field(2,2,2,2).reshape{new}", lambda new=new: M.attr_hook(X, "reshape")(*new), want, keeps, f"reshape:{new}")
     # np.einsum on fields keeps the field type and is the plain contraction
     A, B = _mk("a", (3, 2, 2, 2)), _mk("b", (3, 2, 2, 2))
-    from ..xeval import _NpAttr
 
     run("np.einsum('...ij,...jk->...ik', field, field)", lambda: M.call_hook(_NpAttr("einsum"), ["...ij,...jk->...ik", A, B], {}), xe("...ij,...jk->...ik", XArray(A.shape, A.data), XArray(B.shape, B.data)), True, "einsum:keep")
     # a reduction over the element axis reached through the ufunc protocol itself (np.add.reduce): the result has lost
@@ -659,6 +702,7 @@ def protocol_rule(ctx):
     ctor("broadcast(per-element scalars (Ne,), Ne=3, nPg=2)", lambda: M.static("broadcast", _mk("z", (3,), fe=False), 3, 2), (3, 2), "bc:s:Ne")
     ctor("broadcast(per-point scalars (nPg,), Ne=3, nPg=2)", lambda: M.static("broadcast", _mk("z", (2,), fe=False), 3, 2), (3, 2), "bc:s:nPg")
     ctor("broadcast(full field (Ne, nPg, 2))", lambda: M.static("broadcast", _mk("z", (3, 2, 2), fe=False), 3, 2), (3, 2, 2), "bc:s:full")
+    _broadcast_1d_table(r, M, anchor)
     r.instance()
     got = M.static("broadcast", Q(3, 2), 3, 2)
     if isinstance(got, (Fraction, float, int)):
